@@ -32,8 +32,8 @@ Definition agrees (r : res) (o : obs) : Prop :=
 (* logged value of a special function at one argument *)
 Definition at1 (f : R -> R) (a v : R) : Prop := forall y, y = a -> f y = v.
 (* logged value v of f assumed (within epsv) on an eps-neighbourhood of the binary64 argument a *)
-Definition near1 (f : R -> R) (a eps v : R) : Prop :=
-  forall y, Rabs (y - a) <= eps -> Rabs (f y - v) <= eps.
+Definition near1 (f : R -> R) (a eps v epsv : R) : Prop :=
+  forall y, Rabs (y - a) <= eps -> Rabs (f y - v) <= epsv.
 Definition at2 (f : R -> R -> R) (a b v : R) : Prop := forall y z, y = a -> z = b -> f y z = v.
 
 Ltac side := first [ lra | interval with (i_prec 60) ].
@@ -58,7 +58,10 @@ Lemma Rdiv_0_l' x : 0 / x = 0.
 Proof. unfold Rdiv. apply Rmult_0_l. Qed.
 Lemma Rplus_opp_r' x : x + - x = 0.
 Proof. apply Rplus_opp_r. Qed.
+Lemma Rdiv_same' x : x <> 0 -> x / x = 1.
+Proof. intro H. unfold Rdiv. apply Rinv_r. exact H. Qed.
 Ltac r_zero :=
+  repeat match goal with |- context [?a / ?a] => rewrite (Rdiv_same' a) by lra end;
   rewrite ?Rplus_opp_r', ?Rdiv_0_l', ?Rmult_0_r, ?Rmult_0_l, ?Ropp_0, ?Rplus_0_r, ?Rplus_0_l, ?exp_0, ?Rpower_1_l, ?Rabs_R0.
 
 Ltac er_step :=
@@ -103,7 +106,7 @@ Ltac use_logged :=
 
 Ltac use_near :=
   repeat match goal with
-  | H : near1 ?f ?a ?eps ?v |- context [?f ?e] =>
+  | H : near1 ?f ?a ?eps ?v ?epsv |- context [?f ?e] =>
       let Hb := fresh in let Hv := fresh in let z := fresh "z" in
       assert (Hb : Rabs (e - a) <= eps) by interval with (i_prec 60);
       pose proof (proj1 (Coquelicot.Rcomplements.Rabs_le_between' _ _ _) (H e Hb)) as Hv;
